@@ -1,0 +1,27 @@
+//go:build verif && verif_elem
+
+package banderwagon
+
+import "github.com/crate-crypto/go-ipa/bandersnatch"
+
+// Verification hooks (build tags verif+verif_elem only): raw access to the
+// projective representation of an element and read access to the MSM tables.
+
+// VerifInner returns a pointer to the underlying projective point.
+func (p *Element) VerifInner() *bandersnatch.PointProj { return &p.inner }
+
+// VerifTableDims returns the window size and number of windows of the i-th precomputed point.
+func (msm *MSMPrecomp) VerifTableDims(i int) (windowSize, numWindows, windowLen int) {
+	pp := &msm.precompPoints[i]
+	return pp.windowSize, len(pp.windows), len(pp.windows[0])
+}
+
+// VerifTableEntry returns a copy of table entry (point i, window k, index j).
+func (msm *MSMPrecomp) VerifTableEntry(i, k, j int) bandersnatch.PointExtendedNormalized {
+	return msm.precompPoints[i].windows[k][j]
+}
+
+// VerifTableWindow returns the (shared, read-only) slice backing window k of point i.
+func (msm *MSMPrecomp) VerifTableWindow(i, k int) []bandersnatch.PointExtendedNormalized {
+	return msm.precompPoints[i].windows[k]
+}
